@@ -78,11 +78,18 @@ for p in sorted(os.listdir(os.path.join(V, "_incoming"))):
         json.dump(meta, open(os.path.join(dst, "meta.json"), "w"), indent=1)
         one = " ".join(notes.split())
         rows.append((sid, files, caught, NOTES.get((p, v), "")))
-print("| change | files | caught by (first rule keys) |")
-print("|---|---|---|")
+out = ["# Seeded changes and the checks that catch them", "",
+       "Generated by `tools/finalize_seeds.py` from `seeded/matrix.tsv` (every registered quick check run against every change in a scratch worktree). Bold = the check; after it the first rule key that fired. The check of the property the change was written against is listed first when it fired.", "",
+       "| change | files | caught by (first rule keys) |", "|---|---|---|"]
 for sid, files, caught, note in rows:
+    own = sid.split("-")[0]
     if caught:
-        c = "; ".join("**%s** %s" % (k, " ".join(x.split(":", 1)[0] for x in v.split()[:1])) for k, v in sorted(caught.items()))
+        ks = sorted(caught, key=lambda k: (k != own, k))
+        c = "; ".join("**%s** %s" % (k, " ".join(x.split(":", 1)[0] for x in caught[k].split()[:1])) for k in ks)
+        if own not in caught and note:
+            c += " — " + note
     else:
         c = note or "missed"
-    print("| %s | %s | %s |" % (sid, ", ".join(f.replace("src/", "").replace("core/", "core:") for f in files), c))
+    out.append("| %s | %s | %s |" % (sid, ", ".join(f.replace("src/", "").replace("core/", "core:") for f in files), c))
+open(os.path.join(V, "TABLE.md"), "w").write("\n".join(out) + "\n")
+print("wrote %d rows to seeded/TABLE.md" % len(rows))
